@@ -3559,7 +3559,11 @@ class Interp:
                     raise AbsRaise(f"TypeError: unhashable type: '{v._cls}'")
                 if fh is not None:
                     hv = FuncRef(fh[1]) if fh[0] == "method" else fh[1]
-                    return ("obj", v._cls, self.apply_value(hv, [v], {}, ast.Constant(value=None), "", None))
+                    hres = self.apply_value(hv, [v], {}, ast.Constant(value=None), "", None)
+                    if not (isinstance(hres, int) and not isinstance(hres, bool) or isinstance(hres, bool)
+                            or (isinstance(hres, tuple) and hres and hres[0] == "hash")):
+                        raise AbsRaise(f"TypeError: __hash__ method should return an integer (it returned {type(hres).__name__})")
+                    return ("obj", v._cls, hres)
             rec = v._f.get("_record")
             if rec is not None and rec[1].get("eq", True):
                 if not rec[1].get("frozen") and not rec[1].get("unsafe_hash"):
